@@ -1,7 +1,7 @@
 // Correspondence harness: executes the REAL library functions of /repo (current working tree) on
 // the operation lines read from stdin and prints canonical replies (see lean/Driver/Proto.lean).
 //
-//   request : [!]<fn> <tok>*      tok = hex word | '[' hex* ']'      '!' = run in a forked child
+//   request : [!][^]<fn> <tok>*   tok = hex word | '[' hex* ']'      '!' = run in a forked child, '^' = guard-page mode
 //   reply   : ok <hex>*  |  err <reason>
 //
 // Built by tools/harness.py into a temporary directory together with /repo/src/*.cpp.
@@ -27,6 +27,7 @@
 #include <signal.h>
 #include <fcntl.h>
 #include <malloc.h>
+#include <sys/mman.h>
 
 static const uint64_t SENT = 0xA5A5A5A5A5A5A5A5ULL;
 #ifdef HARNESS_EXACT
@@ -35,13 +36,34 @@ static const size_t RZ = 0;   // exact-size allocations: the sanitizer's redzone
 static const size_t RZ = 16;
 #endif
 
+// guard mode ('^' request prefix): every region argument is mapped so that it ENDS at a PROT_NONE page; a read or
+// write of even one element past the declared extent raises SIGSEGV (reported as "err signal 11" by the forked runner)
+static bool g_guard = false;
+
 struct Buf {
     uint64_t *base = nullptr;
     uint64_t *p = nullptr;
     size_t n = 0;
     bool ok = true;
+    size_t maplen = 0;
+    void release() {
+        if (maplen) munmap(base, maplen); else free(base);
+        base = nullptr;
+    }
     void alloc(size_t n_) {
         n = n_;
+        if (g_guard) {
+            size_t bytes = n * 8, pg = 4096;
+            size_t body = ((bytes + pg - 1) / pg) * pg;
+            maplen = body + 2 * pg;
+            char *m = (char *)mmap(nullptr, maplen, PROT_READ | PROT_WRITE, MAP_PRIVATE | MAP_ANONYMOUS, -1, 0);
+            if (m == (char *)MAP_FAILED) { maplen = 0; base = p = nullptr; ok = false; return; }
+            for (size_t i = 0; i < (pg + body) / 8; i++) ((uint64_t *)m)[i] = SENT;
+            mprotect(m + pg + body, pg, PROT_NONE);
+            base = (uint64_t *)m;
+            p = (uint64_t *)(m + pg + body - bytes);
+            return;
+        }
         size_t tot = n + 2 * RZ;
         base = (uint64_t *)aligned_alloc(64, ((tot * 8 + 63) / 64) * 64 + 64);
 #ifdef HARNESS_EXACT
@@ -55,6 +77,10 @@ struct Buf {
 #endif
     }
     bool check() {
+        if (maplen) {   // guard mode: the slack below the region must still hold the sentinel
+            for (uint64_t *q = base; q < p; q++) if (*q != SENT) ok = false;
+            return ok;
+        }
 #ifndef HARNESS_EXACT
         for (size_t i = 0; i < RZ; i++)
             if (base[i] != SENT || base[RZ + n + i] != SENT) { ok = false; }
@@ -106,6 +132,8 @@ static bool parse_line(const std::string &line, bool &forked, std::string &fn, A
     if (!(is >> fn)) return false;
     forked = false;
     if (fn[0] == '!') { forked = true; fn = fn.substr(1); }
+    g_guard = false;
+    if (!fn.empty() && fn[0] == '^') { g_guard = true; fn = fn.substr(1); }
     bool inreg = false;
     Tok cur;
     while (is >> tok) {
@@ -145,7 +173,7 @@ static std::string run_op(const std::string &fn, Args &A) {
             res = os.str();
         }
     }
-    for (auto &b : g_bufs) free(b.base);
+    for (auto &b : g_bufs) b.release();
     g_bufs.clear();
     return res;
 }
